@@ -26,7 +26,7 @@ MIN_NONTRIVIAL = {'quick': 300, 'thorough': 8000}
 ASSUMPTIONS = ['only calls that return normally are judged (the quantifier of C03); raises of types or on input classes not listed in classify() are reported as exceptions, although C03 itself says nothing about them',
                'which chemicals are gas- / liquid- / solid-only is the harness\'s own table (LOCK: the phase= argument it passes to Chemical), not Chemical.locked_state',
                'flows after a normal return must be finite; the balance is stated NaN-safe (not within the bound = violated)',
-               'refusal ceilings (2x the recorded rate per operation, 2 sigma + 1 allowance) and reach floors (a quarter / a third of the recorded per-shard mean) are evaluated per shard; a breach makes the run inconclusive',
+               'refusal ceilings (2x the recorded rate per operation, 2 sigma + 1 allowance) and reach floors (an eighth / a third of the recorded per-shard mean) are evaluated per shard; a breach makes the run inconclusive',
                'on streams with more rows than the call distributes (material in L / s during vle) the placement of locked chemicals is judged within the rows the call pools (g + l); balance and sign over all rows', 'column sums are compared with relative 1e-12 of the column and absolute 1e-12 of the total flow']
 VOL = ('Water', 'Ethanol', 'Methanol', 'Propanol', 'Butanol', 'Hexane', 'Heptane', 'Octane', 'Benzene', 'Toluene', 'Acetone')
 REFUSALS = ('InfeasibleRegion', 'NoEquilibrium', 'DomainError', 'UndefinedPhase', 'NotImplementedError')
@@ -45,7 +45,7 @@ NUMERIC_SITES = {'FloatingPointError@group_activity_coefficients', 'FloatingPoin
 # evaluated per shard with a 2-sigma + 1 allowance for the small counts (check_rates)
 CEIL = {'vle:Tx': 0.82, 'vle:Ty': 0.82, 'vle:Px': 0.82, 'vle:Py': 0.82, 'vle:TH': 0.70, 'vle:TS': 0.70, 'vle:PS': 0.035, 'vle:PV': 0.02, 'vle:PH': 0.02, 'vle:TP': 0.02, 'vle:TV': 0.02,
         'sle': 0.32, 'vlle': 0.30, 'receive_vent': 0.06, 'lle': 0.02, 'separations.lle': 0.02, 'mix_from': 0.02, 'probe': 0.02}
-# mean number of hits per quick shard (260 + 300 cases) on the unchanged library, seeds 0-3: a shard that stays below a quarter (quick, counters with a mean of 16 or more) or
+# mean number of hits per quick shard (260 + 300 cases) on the unchanged library, seeds 0-3: a shard that stays below an eighth (quick, counters with a mean of 16 or more) or
 # a third (thorough, 15x the cases) of it makes the run inconclusive - 'reached at least once' is not enough to say a clause was judged
 SHARD_MEAN = {'judged:finite': 594, 'judged:invariant': 687, 'judged:lle': 90, 'judged:mix_from': 17.6, 'judged:probe': 112, 'judged:receive_vent': 27.6, 'judged:separations.lle': 22.2, 'judged:sle': 37,
               'judged:vle:PH': 49.9, 'judged:vle:PS': 25, 'judged:vle:PV': 40.9, 'judged:vle:Px': 9.7, 'judged:vle:Py': 11.4, 'judged:vle:TH': 23.2, 'judged:vle:TP': 97.4, 'judged:vle:TS': 16.6,
